@@ -31,7 +31,9 @@ ASSUMPTIONS = ["absolute numerical slack of 2e-5 A on top of the tolerance-propo
 
 @st.composite
 def strategy(draw):
-    case = draw(repl.replace_case(repl_kinds=["larger", "larger", "equal", "disjoint"], fractions=False))
+    case = draw(repl.replace_case(repl_kinds=["larger", "larger", "equal", "disjoint"], fractions=True))
+    if case["f"] == 0.0:
+        case["f"] = 1.0
     case["replace_all"] = draw(st.booleans())
     R, pcls = draw(gen_geom.pose(case["ppos"], classes=["random", "axis", "flip"]))
     case["motion"] = {"R": np.asarray(R).tolist(), "t": [draw(st.floats(-8, 8)) for _ in range(3)]}
@@ -59,7 +61,7 @@ def amp_factor(case):
     return out
 
 
-def check_result(case, groups, new, stats, label):
+def check_result(case, groups, new, stats, label, k=None):
     cell = np.array(case["cell"])
     sh, s_only, r_only = repl.shared_maps(case)
     if case["replace_all"]:
@@ -67,7 +69,7 @@ def check_result(case, groups, new, stats, label):
     res = repl.resolved_atoms(new)
     rtags = {round(c, 6): j for j, c in enumerate(case["rcharges"])}
     inserted = [(rtags[round(a["charge"], 6)], a["pos"]) for a in res if round(a["charge"], 6) in rtags]
-    K = len(groups)
+    K = len(groups) if k is None else k
     if len(inserted) != K * len(r_only):
         raise Violation("inserted-count", "%s: %d inserted atoms for %d matches x %d new atoms" % (label, len(inserted), K, len(r_only)))
     inv = np.linalg.inv(cell)
@@ -157,21 +159,23 @@ def oracle(case, stats):
         return
     s = repl.build_structure(case)
     sp, rp = repl.build_search(case), repl.build_replace(case)
-    kw = dict(replace_all=case["replace_all"])
+    kw = dict(replace_all=case["replace_all"], replace_fraction=case["f"], return_num_matches=True)
     try:
-        new = mf.replace(s, sp, rp, case["atol"], case["hints"], case["seeds"], **kw)
+        new, k = mf.replace(s, sp, rp, case["atol"], case["hints"], case["seeds"], **kw)
     except Exception as e:
         raise Violation("exception-in-replace", "%s: %r" % (type(e).__name__, e))
-    ncross = check_result(case, groups, new, stats, "base run")
+    ncross = check_result(case, groups, new, stats, "base run", k)
     # joint rigid motion of both patterns
     m = case["motion"]
     sp2, rp2 = repl.build_search(case, m), repl.build_replace(case, m)
     try:
-        new2 = mf.replace(s, sp2, rp2, case["atol"], case["hints"], case["seeds"], **kw)
+        new2, k2 = mf.replace(s, sp2, rp2, case["atol"], case["hints"], case["seeds"], **kw)
     except Exception as e:
         raise Violation("exception-in-replace", "after joint rigid motion of both patterns: %s: %r" % (type(e).__name__, e))
-    check_result(case, groups, new2, stats, "run with jointly moved patterns")
-    single = all(len(g["orderings"]) == 1 for g in groups.values())
+    check_result(case, groups, new2, stats, "run with jointly moved patterns", k2)
+    # with a fraction < 1 the random choice of matches must be the same in both runs for the results to be comparable:
+    # the RNGs are seeded identically and the number of found matches is the same, so it is
+    single = all(len(g["orderings"]) == 1 for g in groups.values()) and k == k2
     ppos = np.array(case["ppos"])
     collinear = len(ppos) < 3 or np.linalg.matrix_rank(ppos[1:] - ppos[0], tol=1e-6) < 2
     meta = case["meta"]
@@ -194,6 +198,8 @@ def oracle(case, stats):
     stats.count("noise:%s" % ("exact" if all(c["noise"] == 0 for c in meta["copies"]) else "noisy"))
     stats.count("single-ordering:%s" % single)
     stats.count("replace_all:%s" % case["replace_all"])
+    stats.count("fraction:%s" % ("1" if case["f"] == 1.0 else "<1"))
+    stats.count("replaced:%s-of-%d" % (k, len(groups)) if len(groups) < 4 else "replaced:of-4+")
     stats.count("inserted-atom-wrapped:%s" % (ncross > 0))
     for c in meta["copies"]:
         stats.count("crossings:%d" % c["crossings"])
@@ -201,6 +207,163 @@ def oracle(case, stats):
         stats.mark_nontrivial(case)
 
 
+# ---------------------------------------------------------------------------------------------------------------------
+# replacement atoms far outside the search pattern's hull, in cells sized for the search pattern only: the inserted
+# atoms may have to be wrapped by several lattice vectors.  Unwrapping by minimum image is not unique here, so the
+# expected position is predicted from the matched atoms (exact copies, unique ordering, non-collinear pattern).
+
+@st.composite
+def far_strategy(draw):
+    pat = draw(gen_geom.pattern(classes=["generic", "chiral", "planar", "rod"], max_atoms=5, min_atoms=3))
+    case = draw(gen_geom.planted(pat=pat, max_copies=2, with_decoys=False, with_hints=False, noise_levels=(0.0,),
+                                 tightness=[1.02, 1.1, 1.5], bystanders=2))
+    ppos = np.array(case["ppos"])
+    n = len(ppos)
+    keep = sorted(draw(st.sets(st.integers(0, n - 1), min_size=1, max_size=n)))
+    rpos = [ppos[i].tolist() for i in keep]
+    rels = [case["pels"][i] for i in keep]
+    shared = {str(r): s_ for r, s_ in enumerate(keep)}
+    for _ in range(draw(st.integers(1, 3))):
+        base = ppos[draw(st.integers(0, n - 1))]
+        p = base + draw(gen_geom.unit_vector()) * draw(st.sampled_from([3.0, 6.0, 10.0, 15.0, 25.0]))
+        rpos.append(p.tolist())
+        rels.append(draw(st.sampled_from(["F", "Cl", "I"])))
+    case["rpos"], case["rels"], case["shared"] = rpos, rels, shared
+    case["rcharges"] = [round(repl.R_TAG0 + 0.01 * j, 6) for j in range(len(rpos))]
+    case["rgroups"] = [4] * len(rpos)
+    case["replace_all"] = draw(st.booleans())
+    case["f"] = 1.0
+    case["payload"] = draw(repl.payload(case["sels"]))
+    return case
+
+
+def far_oracle(case, stats):
+    ppos = np.array(case["ppos"])
+    if np.linalg.matrix_rank(ppos[1:] - ppos[0], tol=1e-3) < 2:
+        stats.count("skipped:collinear")
+        return
+    groups, reason = repl.analyse(case)
+    if reason or not groups:
+        stats.count("skipped:" + (reason or "no-match"))
+        return
+    if any(len(g["orderings"]) != 1 for g in groups.values()):
+        stats.count("skipped:several-orderings")
+        return
+    s = repl.build_structure(case)
+    sp, rp = repl.build_search(case), repl.build_replace(case)
+    try:
+        new = mf.replace(s, sp, rp, case["atol"], case["hints"], case["seeds"], replace_all=case["replace_all"])
+    except Exception as e:
+        raise Violation("exception-in-replace", "%s: %r" % (type(e).__name__, e))
+    cell = np.array(case["cell"])
+    inv = np.linalg.inv(cell)
+    sh, s_only, r_only = repl.shared_maps(case)
+    if case["replace_all"]:
+        r_only = list(range(len(case["rpos"])))
+    rtags = {round(c, 6): j for j, c in enumerate(case["rcharges"])}
+    inserted = [(rtags[round(a["charge"], 6)], a["pos"]) for a in repl.resolved_atoms(new) if round(a["charge"], 6) in rtags]
+    if len(inserted) != len(groups) * len(r_only):
+        raise Violation("inserted-count", "%d inserted atoms for %d matches x %d new atoms" % (len(inserted), len(groups), len(r_only)))
+    nwrap = 0
+    for j, p in inserted:
+        fr = p @ inv
+        if fr.min() < -1e-9 or fr.max() > 1 + 1e-9:
+            raise Violation("inserted-outside-cell", "inserted copy of replacement atom %d at %r has fractional coordinates "
+                            "%r (replacement atom %.1f A from the pattern, cell widths %r)" %
+                            (j, p.tolist(), fr.tolist(), min(np.linalg.norm(np.array(case["rpos"][j]) - q) for q in ppos),
+                             np.round(geom.perp_widths(cell), 2).tolist()))
+    # predicted positions
+    remaining = list(inserted)
+    lever = max(np.linalg.norm(np.array(r) - ppos[0]) for r in case["rpos"])
+    tol = ABS_SLACK * (1 + lever)
+    for key, g in groups.items():
+        o = g["orderings"][0]
+        R, t, rmsd, maxdev = geom.kabsch(ppos, o["pos"])
+        for j in r_only:
+            pred = R @ np.array(case["rpos"][j]) + t
+            hit = None
+            for k, (jj, p) in enumerate(remaining):
+                if jj == j and geom.lattice_diff(cell, p, pred) <= tol:
+                    hit = k
+                    break
+            if hit is None:
+                raise Violation("misplaced-insertion", "match %r: replacement atom %d should land at %r modulo the lattice "
+                                "(same frame as the matched search pattern); inserted copies of that atom are at %r" %
+                                (key, j, pred.tolist(), [p.tolist() for jj, p in remaining if jj == j]))
+            fr = pred @ inv
+            if np.abs(np.floor(fr)).max() >= 2 or (np.floor(fr) != 0).sum() >= 2:
+                nwrap += 1
+            remaining.pop(hit)
+    stats.count("far:cell:" + case["meta"]["cell_cls"])
+    stats.count("far:wrapped-by-2+-cells-or-2+-axes:%s" % (nwrap > 0))
+    stats.mark_nontrivial(case)
+
+
+# ---------------------------------------------------------------------------------------------------------------------
+# histories on one object: replace (inserting atoms), replicate, replace again on the replicated structure
+
+@st.composite
+def history_strategy(draw):
+    case = draw(repl.replace_case(repl_kinds=["larger"], fractions=False, max_copies=2, decoys=False, max_atoms=4))
+    # the first replacement keeps the whole search pattern (so that it still occurs afterwards) and adds atoms
+    n = len(case["ppos"])
+    extra = [(p, e) for j, (p, e) in enumerate(zip(case["rpos"], case["rels"])) if str(j) not in case["shared"]]
+    case["rpos"] = [list(p) for p in case["ppos"]] + [p for p, e in extra]
+    case["rels"] = list(case["pels"]) + [("F" if e in case["pels"] else e) for p, e in extra]
+    case["shared"] = {str(i): i for i in range(n)}
+    case["rcharges"] = [round(repl.R_TAG0 + 0.01 * j, 6) for j in range(len(case["rpos"]))]
+    case["rgroups"] = [4] * len(case["rpos"])
+    case["replace_all"] = False
+    r = [draw(st.integers(1, 2)) for _ in range(3)]
+    if r == [1, 1, 1]:
+        r[draw(st.integers(0, 2))] = 2
+    case["repl"] = r
+    return case
+
+
+def history_oracle(case, stats):
+    groups, reason = repl.analyse(case)
+    if reason or not groups:
+        stats.count("skipped:" + (reason or "no-match"))
+        return
+    if not any(str(j) not in case["shared"] for j in range(len(case["rpos"]))):
+        stats.count("skipped:nothing-inserted")
+        return
+    s = repl.build_structure(case)
+    sp, rp = repl.build_search(case), repl.build_replace(case)
+    try:
+        new1 = mf.replace(s, sp, rp, case["atol"], case["hints"], case["seeds"])
+        check_result(case, groups, new1, stats, "first replacement")
+        from mv.quiet import silenced
+        with silenced():
+            sup = new1.replicate(tuple(case["repl"]))
+    except Violation:
+        raise
+    except Exception as e:
+        raise Violation("exception-in-history", "%s: %r" % (type(e).__name__, e))
+    case2 = dict(case)
+    case2["cell"] = np.asarray(sup.cell, float).tolist()
+    case2["spos"] = np.asarray(sup.positions, float).tolist()
+    case2["sels"] = list(sup.elements)
+    case2["rcharges"] = [round(7.0 + 0.01 * j, 6) for j in range(len(case["rpos"]))]
+    case2.pop("payload", None)
+    # positions must be inside the new cell for the reference (replicate keeps them inside the enlarged cell)
+    groups2, reason2 = repl.analyse(case2)
+    if reason2 or not groups2:
+        stats.count("skipped:second-step-" + (reason2 or "no-match"))
+        return
+    rp2 = repl.build_replace(case2)
+    try:
+        new2 = mf.replace(sup, sp, rp2, case["atol"], case["hints"], case["seeds"])
+    except Exception as e:
+        raise Violation("exception-in-history", "second replacement after replicate%r: %s: %r" % (tuple(case["repl"]), type(e).__name__, e))
+    check_result(case2, groups2, new2, stats, "replacement after replace+replicate%r on the same object" % (tuple(case["repl"]),))
+    stats.count("history:cell:" + case["meta"]["cell_cls"])
+    stats.mark_nontrivial(case)
+
+
 PARTS = [
     HypPart("insertion", lambda tier: strategy(), oracle, {"quick": 3000, "thorough": 40000}),
+    HypPart("far-replacement", lambda tier: far_strategy(), far_oracle, {"quick": 1200, "thorough": 15000}),
+    HypPart("replace-replicate-replace", lambda tier: history_strategy(), history_oracle, {"quick": 600, "thorough": 6000}),
 ]
